@@ -157,13 +157,14 @@ func vAllocCheck() {
 		panic(vViolated{"alloc-bound"})
 	}
 }
-func vSteps() int                { return 0 }
-func vStepLimit(n int)           {}
-func vSymbolic() bool            { return false }
+func vSteps() int      { return 0 }
+func vStepLimit(n int) {}
+func vSymbolic() bool  { return false }
 
 // vArith(1): ask the engine to render this harness's path condition as wrapped integer arithmetic first.
 func vArith(mode int) {}
-func vTrace()                    {}
+func vTrace()         {}
+
 // vFreeze: the engine marks everything reachable from x read-only and reports any store. Natively a deep
 // fingerprint is taken and compared when the harness ends, so that a reported store can be confirmed by replay.
 type vFrozenRec struct {
